@@ -40,6 +40,9 @@ def gen_cases(seed, tier):
     # chains: the permutation iterated on its own in-place result (calls whose input is the previous call's output)
     for i in range(4 if tier == 'quick' else 40):
         cases.append(('permchain', [rng.word() for _ in range(12)], [5]))
+    # one entry point iterated alone on its own result (4 variants x reference before/after)
+    for i in range(8 if tier == 'quick' else 64):
+        cases.append(('permiter', [rng.word() for _ in range(12)], [3 + i % 3, i % 4, (i // 4) % 2]))
     stride = max(1, len(states) // nfull)
     for i, s in enumerate(states):
         full = (i % stride == 0) or i < 4
@@ -128,6 +131,8 @@ def write_cases(path, cases):
         for op, s, b in cases:
             if op == 'permchain':
                 f.write('permchain %d ' % b[0] + ' '.join('0x%x' % x for x in s) + '\n')
+            elif op == 'permiter':
+                f.write('permiter %d %d %d ' % tuple(b) + ' '.join('0x%x' % x for x in s) + '\n')
             else:
                 f.write(op + ' ' + ' '.join('0x%x' % x for x in s) + ' ' + ' '.join('0x%x' % x for x in b) + '\n')
 
@@ -175,11 +180,16 @@ def run(tier, seed, replay=None):
             ci = rec['ci']
             case = cases[ci - 1]
             how = vlib.confirm_case(wd, 'Trace_Poseidon', 'Trace_Poseidon.cfg', lambda cp, tp: [exe, cp, tp], write_cases,
-                                    [('permfull', x[1], x[2]) if i == ci - 1 else x for i, x in enumerate(cases)], ci, env={'PCONST': pc})
-            if how:
+                                    [('permfull', x[1], x[2]) if (i == ci - 1 and x[0] == 'perm') else x for i, x in enumerate(cases)], ci, env={'PCONST': pc})
+            if how and rec.get('e') == 'iter':
+                names = ['scalar in place', 'AVX2 in place', 'AVX2 out of place (ping-pong)', 'AVX512 in place']
+                bad = [i for i in range(rec['k']) if rec['outs'][12 * i:12 * i + 12] != rec['ref'][12 * i:12 * i + 12]]
+                ck.violation('%s build: %s iterated on its own result departs from the permutation at step %s%s' % (variant, names[rec['variant'] % 4], (bad[0] + 1) if bad else '?', vlib.HIST if how == 'history' else ''),
+                             'k=%d start state %s' % (rec['k'], ' '.join('%x' % x for x in case[1])), dict(cases=[[x[0], list(x[1]), list(x[2])] for x in (cases[:ci] if how == 'history' else [case])]))
+            elif how:
                 agree = all(rec.get(k) == rec.get('seq') for k in ('avx', 'seq_ip', 'avx_ip'))
                 ck.violation('%s build: permutation %s on state %s%s' % (variant, 'variants disagree' if not agree else 'differs from the specified permutation (or AVX512 slot mismatch)', ' '.join('%x' % x for x in case[1]), vlib.HIST if how == 'history' else ''),
-                             json.dumps(vlib.compact(rec))[:400], dict(cases=[[x[0], list(x[1]), list(x[2])] for x in (cases[:ci] if how == 'history' else [('permfull', case[1], case[2])])]))
+                             json.dumps(vlib.compact(rec))[:400], dict(cases=[[x[0], list(x[1]), list(x[2])] for x in (cases[:ci] if how == 'history' else [('permfull' if case[0] == 'perm' else case[0], case[1], case[2])])]))
             else:
                 ck.note('rejection not reproduced on re-run (neither alone nor after its process history): state %s' % ' '.join('%x' % x for x in case[1]))
     ck.cov['states_per_build'] = len(cases)
